@@ -62,6 +62,20 @@ def run(payload):
             fails.append({"id": f"{solver}.{backend}", "equation": type(eq).__name__, "dt": dt, "N": N, "t_start": t0, "steps_with_trackers": info["solver"]["steps"],
                           "steps_without": info0["solver"]["steps"], "t_final": info["controller"]["t_final"], "t_end": t1,
                           "max_state_diff": float(np.max(np.abs(res.data - base.data))), "initial_modified": not np.array_equal(init.data, keep)})
+    # ---- complex-valued equation, initial state already complex: the run still works on a copy
+    from pde import PDE
+    for backend in ("numpy", "numba"):
+        for dtype in (complex, float):
+            cases += 1
+            init = ScalarField(UnitGrid([6], periodic=True), np.cos(np.arange(6.0)), dtype=dtype)
+            keep = init.data.copy()
+            try:
+                res = PDE({"c": "I * laplace(c)"}).solve(init, t_range=0.05, dt=0.01, backend=backend, solver="euler", tracker=None)
+                if res is init or not np.array_equal(init.data, keep) or np.shares_memory(res.data, init.data):
+                    fails.append({"id": "initial_state_of_a_complex_equation_modified", "backend": backend, "dtype": dtype.__name__, "result_is_the_initial_object": res is init,
+                                  "initial_modified": not np.array_equal(init.data, keep)})
+            except Exception as e:
+                fails.append({"id": "complex_run_error", "backend": backend, "error": f"{type(e).__name__}: {e}"})
     return {"ok": True, "cases": cases, "failures": fails[:6]}
 
 
